@@ -239,7 +239,7 @@ fn run_check(args: &Args) -> i32 {
             break;
         }
         let target: &dyn Target = &**target;
-        let st = explore(target, widx, &mut pool, left, samples.len() < 3);
+        let st = explore(target, widx, &mut pool, left, true);
         if args.verbose {
             eprintln!(
                 "{:<44} execs={:>10} states={:>11} outcomes={:>7} viol_execs={:>8} sigs={} {:.1}s",
@@ -270,8 +270,9 @@ fn run_check(args: &Args) -> i32 {
         if st.capped {
             machinery = Some(format!("wall-clock cap hit inside world {}", target.name()));
         }
-        for s in st.samples.iter() {
-            if samples.len() < 3 {
+        // at most one sample per world, from three different worlds (skipping the trivial ones)
+        if let Some(s) = st.samples.iter().max_by_key(|s| s.len()) {
+            if samples.len() < 3 && (st.execs > 1000 || widx + 4 > targets.len()) {
                 samples.push(json!({"world": target.name(), "history": s}));
             }
         }
